@@ -310,8 +310,10 @@ def harnesses(tier):
     for shape in shapes:
         if shape == ():
             continue
-        for expo in (0, 1, 2, 3, 2.0, 0.5, 1.5):
+        for expo in (0, 1, 2, 3, 2.0, 0.5, 1.5, 2.9999999996, 2.0000000004, 1e-12):
             if expo == 3 and shape == (3, 3) and not T:
+                continue
+            if expo in (2.9999999996, 2.0000000004, 1e-12) and shape not in ((2, 2), (3, 3), (2,)):
                 continue
             if shape in ((4, 4),) and expo in (3,):
                 continue
